@@ -167,3 +167,14 @@ func WithTypedefDefaults(kids []*S) []*S {
 	}
 	return out
 }
+
+// WithConfigFalse returns a copy of the schema in which every top-level node is state data
+// (config false, inherited by everything below): the default validation covers state data too,
+// with the same rules.
+func WithConfigFalse(kids []*S) []*S {
+	out := Clone(kids)
+	for _, n := range out {
+		n.Config = "false"
+	}
+	return out
+}
